@@ -355,6 +355,9 @@ func (x *txnCtx) writesTxn(off uint32, op *Op) {
 			continue
 		case wr.SetKey:
 			key := wr.Val.Str()
+			if x.dupKey(key) {
+				continue
+			}
 			_, exists := w.model.KeyOf(key)
 			err := x.txn.Key().Set(key)
 			if (err != nil) != exists {
